@@ -700,7 +700,7 @@ func showTok(tok influxql.Token, lit string) (string, bool) {
 }
 
 func Run(c *hx.Ctx) error {
-	c.Stats.Rule = "grammar-directed WHERE conditions (all binary operators, flat operator runs with random parentheses, unary minus, quoted/dotted/typed identifiers, strings with quotes/backslashes/newlines/unicode, int64 limits, float shapes, durations, time-literal strings, regexes with slashes, calls of arity 0-4, IN sets, MATCH family, LIKE) plus a token-level broken stream, plus literal printers/scanners on arbitrary values, plus option/plan/chunk objects through Marshal->Unmarshal; a condition is non-trivial when its tree mixes at least two precedence levels or holds a literal that needs escaping; distinct by statement text"
+	c.Stats.Rule = "grammar-directed WHERE conditions (all binary operators, flat operator runs with random parentheses, unary minus, quoted/dotted/typed identifiers, strings with quotes/backslashes/newlines/unicode, int64 limits, float shapes, durations, time-literal strings, regexes with slashes, calls of arity 0-4, IN sets, MATCH family, LIKE) plus a token-level broken stream, plus literal printers/scanners on arbitrary values, plus SELECT field lists (aliases, regex fields, wildcards, CASE) through Fields.String() -> hybridqp.ParseFields, sort fields through ParseSortFields, sources and sub-queries (tz, fill, GROUP BY time with offset, LIMIT/OFFSET, ORDER BY, INTO, regex sources) through ParseSource, a text parsed by the pooled parser after five different previous uses, plus ProcessorOptions objects (every modelled field at zero / typical / boundary values, and the options NewProcessorOptionsStmtBase builds from generated statements) field by field through MarshalBinary -> UnmarshalBinary, plan and chunk objects through Marshal->Unmarshal; a condition is non-trivial when its tree mixes at least two precedence levels or holds a literal that needs escaping; distinct by statement text"
 	n := c.Budget(30000, 1000000)
 	// hx.NewRng(seed) states are one splitmix step apart for consecutive seeds (seed 2 replays
 	// seed 1 shifted by one draw); Fork() hashes the seed so the streams are unrelated
